@@ -65,14 +65,19 @@ def event(theta, est, method, alphas, nan, cid, ids, dtype, seed):
     rnd = np.random.RandomState(seed + cid)
     e = {"id": next(ids), "cid": cid, "op": "bootci", "exc": "", "theta": theta, "est": est,
          "method": method, "alphas": alphas, "dtype": dtype, "shape_ok": True,
-         "out": {}, "outq": {}, "v_nan": {}, "v_perm": {}, "v_aff": {}, "v_stack": {}, "v_stack2": {}, "v_small": {}, "aff": [2, 1]}
+         "out": {}, "outq": {}, "v_nan": {}, "v_perm": {}, "v_aff": {}, "v_stack": {}, "v_stack2": {}, "v_small": {}, "aff": [2, 1], "theta_untouched": True}
     try:
         th = to_arr(theta, nan, dtype)
         est_main = est
         if th.dtype == np.uint32 and est >= 0:
             est_main = np.uint32(est)                 # replicates and estimate share the unsigned dtype
         thf = th.astype(float)
+        th_keep = th.copy()
+        if cid % 3 == 0:
+            th.flags.writeable = False            # the caller's replicate array may be read-only
         th_nan = np.concatenate([thf[:1], [np.nan], thf[1:], [np.nan, np.nan]])
+        th_nan_f = np.asfortranarray(th_nan.reshape(-1, 1))     # single component, column-major, with NaNs
+        th_nan_keep = th_nan_f.copy()
         perm = rnd.permutation(len(th))
         k, c = int(rnd.choice([2, 3, 5])), int(rnd.choice([-7, 1, 4]))
         e["aff"] = [k, c]
@@ -94,8 +99,10 @@ def event(theta, est, method, alphas, nan, cid, ids, dtype, seed):
             e["out"][str(a)] = [fx6(r[0]), fx6(r[1])]
             if method == "quantile":
                 e["outq"][str(a)] = [rat(r[0]), rat(r[1])]
-            r2 = np.asarray(bootstrap_ci(th_nan, est, al, method=method))
+            r2 = np.asarray(bootstrap_ci(th_nan_f, np.array([est]), al, method=method)).reshape(-1)
             e["v_nan"][str(a)] = [fx6(r2[0]), fx6(r2[1])]
+            if not (np.array_equal(th, th_keep, equal_nan=th.dtype.kind == "f") and np.array_equal(th_nan_f, th_nan_keep, equal_nan=True)):
+                e["theta_untouched"] = False
             r3 = np.asarray(bootstrap_ci(th[perm], est, al, method=method))
             e["v_perm"][str(a)] = [fx6(r3[0]), fx6(r3[1])]
             r4 = np.asarray(bootstrap_ci(k * thf + c, k * est + c, al, method=method))
